@@ -27,13 +27,19 @@ func (w *Worker) readNewRaceLog() string {
 	return s
 }
 
-var raceFrameRE = regexp.MustCompile(`(?m)^\s+(/repo/[^\s:]+:\d+)`)
+// raceRepoDir is the tree the binary was built from (frames are named relative to it).
+var raceRepoDir = "/repo"
+
+func raceFrameRE() *regexp.Regexp {
+	return regexp.MustCompile(`(?m)^\s+` + regexp.QuoteMeta(strings.TrimSuffix(raceRepoDir, "/")) + `/([^\s:]+:\d+)`)
+}
 
 // raceClasses extracts, per report, the pair of top-most /repo frames of the
 // two conflicting accesses: the "race class" used to de-duplicate reports and
 // to identify a finding.
 func raceClasses(text string) []string {
 	var out []string
+	frameRE := raceFrameRE()
 	for _, rep := range strings.Split(text, "WARNING: DATA RACE") {
 		if !strings.Contains(rep, "by goroutine") && !strings.Contains(rep, "by main goroutine") {
 			continue
@@ -46,9 +52,9 @@ func raceClasses(text string) []string {
 			if i := strings.Index(b, "Goroutine "); i >= 0 {
 				b = b[:i]
 			}
-			m := raceFrameRE.FindStringSubmatch(b)
+			m := frameRE.FindStringSubmatch(b)
 			if m != nil {
-				tops = append(tops, strings.TrimPrefix(m[1], "/repo/"))
+				tops = append(tops, m[1])
 			} else {
 				tops = append(tops, "?")
 			}
